@@ -4,8 +4,10 @@ the product with a deterministic automaton accepts the intersection by final sta
 -/
 import Pfl.Props.C13_Modes
 import Pfl.Proofs.FABase
+import Pfl.Proofs.PDAToCFG
 namespace Pfl
 namespace PDA
+open Pfl.CFG Pfl.PDA.ToCFG
 variable {σ γ τ : Type} [DecidableEq σ] [DecidableEq γ] [DecidableEq τ]
 
 /-- `to_cfg` (with an injective naming of states and stack symbols whose names contain neither
@@ -17,14 +19,54 @@ theorem toCFG_lang (P : PDA σ γ) (hP : P.WF) (ns : σ → String) (ng : γ →
     (hstart : ∀ q ∈ P.states, ∀ x ∈ P.stack, ∀ p ∈ P.states, tripleName ns ng q x p ≠ "#StartCFG#")
     (C : CFG) (h : P.toCFG ns ng = some C) (w : List String) :
     C.Lang w ↔ P.AccEmpty w := by
-  sorry
+  rw [lang_iff_gen, toCFG_start h]
+  constructor
+  · rintro ⟨s₀, hs₀, hg⟩
+    simp only [Option.some.injEq] at hs₀
+    subst hs₀
+    obtain ⟨body, hp, hb⟩ := gen_var_iff.1 hg
+    rcases (mem_toCFG_prods h _).1 hp with ⟨s, z, p, hs, hz, hpp, he⟩ |
+      ⟨q, a, x, q₁, push, p, body', ht, hpp, _, _, he⟩
+    · simp only [Prod.mk.injEq, true_and] at he
+      subst he
+      rw [genList_singleton] at hb
+      exact ⟨s, z, p, hs, hz, (steps_of_gen hP hinj hstart h).1 _ _ hb s z p (hP.start s hs)
+        (hP.startStack z hz) hpp rfl⟩
+    · simp only [Prod.mk.injEq] at he
+      exact absurd he.1.symm (hstart q (hP.src _ ht) x (hP.pop _ ht) p hpp)
+  · rintro ⟨s, z, q, hs, hz, hr⟩
+    obtain ⟨n, hn⟩ := steps_iff_stepsN.1 hr
+    refine ⟨_, rfl, ?_⟩
+    have hq : q ∈ P.states := by
+      cases n with
+      | zero => rw [stepsN_zero_iff] at hn; simp at hn
+      | succ n => exact stepsN_last hP hn
+    refine Gen.var ((mem_toCFG_prods h _).2 (Or.inl ⟨s, z, q, hs, hz, hq, rfl⟩)) ?_
+    exact genList_singleton.2 (gen_of_stepsN hP h n s z q w hn)
 
 /-- `PDA.intersection` with a deterministic ε-free automaton -/
 theorem inter_lang (P : PDA σ γ) (hP : P.WF) (D : ENFA τ) (hD : D.Deterministic) (eD : D.EpsFree)
     (symOf : String → Option Nat) (fuel : Nat) (Q : PDA (σ × τ) γ)
     (h : P.inter D symOf fuel = some Q) (w : List String) :
     Q.AccFinal w ↔ P.AccFinal w ∧ ∃ ks, w.mapM symOf = some ks ∧ D.Lang ks := by
-  sorry
+  obtain ⟨s, d, seen, hs, hd, hseen, hQs, hQz, hQf, hQd⟩ := inter_spec h
+  have hdm : d ∈ D.starts := List.mem_of_head? hd
+  constructor
+  · rintro ⟨s₀, z, f, β, hs₀, hz, hf, hr⟩
+    rw [hQs] at hs₀
+    cases hs₀
+    rw [hQz] at hz
+    obtain ⟨_, hf1, hf2⟩ := (hQf f).1 hf
+    obtain ⟨h1, ks, hks, hrun⟩ := inter_steps_sound hQd hr rfl
+    exact ⟨⟨s, z, f.1, β, hs, hz, hf1, h1⟩, ks, hks, d, hdm, f.2, hf2, hrun⟩
+  · rintro ⟨⟨s', z, f, β, hs', hz, hf, hr⟩, ks, hks, d', hd', f', hf', hrun⟩
+    rw [hs] at hs'
+    cases hs'
+    have hdd : d' = d := hD.1 d' hd' d hdm
+    subst hdd
+    obtain ⟨h1, h2⟩ := inter_steps_complete hP eD hseen hQd hr rfl d' ks f' hseen.1 hks hrun
+    exact ⟨(s, d'), z, (f, f'), β, hQs, by rw [hQz]; exact hz, (hQf _).2 ⟨h1, hf, hf'⟩, h2⟩
 
 end PDA
 end Pfl
+
